@@ -241,8 +241,11 @@ func isAligned(fromDomain, authDomain string, mode AlignmentMode) bool {
 func ExtractFromDomain(hdr textproto.Header) (string, error) {
 	// TODO(GH emersion/go-message#75): Add textproto.Header.Count method.
 	var firstFrom string
+	fromFields := 0
 	for fields := hdr.FieldsByKey("From"); fields.Next(); {
-		if firstFrom == "" {
+		// Count the fields, an empty value is a field too.
+		fromFields++
+		if fromFields == 1 {
 			firstFrom = fields.Value()
 		} else {
 			return "", errors.New("dmarc: multiple From header fields are not allowed")
